@@ -171,8 +171,8 @@ Qed.
 Lemma projU_loop_exit : (1 <= r_its r)%nat ->
   (forall k, (1 <= k < r_its r)%nat -> tryFor ROps o < nrm k) /\
   (r_diverged r = false -> nrm (r_its r) <= tryFor ROps o \/ r_its r = MaxIterationsU) /\
-  (r_diverged r = true -> o_local o = true /\ (2 <= r_its r)%nat /\ nrm (r_its r - 1) < nrm (r_its r)) /\
-  (o_local o = true -> forall k, (2 <= k)%nat -> (k < r_its r)%nat \/ (k = r_its r /\ r_diverged r = false) -> nrm k <= nrm (k - 1)).
+  (r_diverged r = true -> o_local o = true /\ (2 <= r_its r)%nat /\ nrm (r_its r - 1)%nat < nrm (r_its r)) /\
+  (o_local o = true -> forall k, (2 <= k)%nat -> (k < r_its r)%nat \/ (k = r_its r /\ r_diverged r = false) -> nrm k <= nrm (k - 1)%nat).
 Proof.
   unfold r, projectU. cases; try open_iter MaxIterationsU entry; cases; cbn; intros Hn; try lia.
   all: assert (HN : forall k, (1 <= k)%nat -> Nseq entry nrm k = nrm k) by (intros [|k] Hk; [lia | reflexivity]).
@@ -297,8 +297,8 @@ Qed.
 Lemma projQ_loop_exit : (1 <= r_its r)%nat ->
   (forall k, (1 <= k < r_its r)%nat -> tryFor ROps o < nrm k) /\
   (r_diverged r = false -> nrm (r_its r) <= tryFor ROps o \/ r_its r = MaxIterationsQ) /\
-  (r_diverged r = true -> o_local o = true /\ (2 <= r_its r)%nat /\ nrm (r_its r - 1) < nrm (r_its r)) /\
-  (o_local o = true -> forall k, (2 <= k)%nat -> (k < r_its r)%nat \/ (k = r_its r /\ r_diverged r = false) -> nrm k <= nrm (k - 1)).
+  (r_diverged r = true -> o_local o = true /\ (2 <= r_its r)%nat /\ nrm (r_its r - 1)%nat < nrm (r_its r)) /\
+  (o_local o = true -> forall k, (2 <= k)%nat -> (k < r_its r)%nat \/ (k = r_its r /\ r_diverged r = false) -> nrm k <= nrm (k - 1)%nat).
 Proof.
   unfold r, projectQ; destruct (geb ROps pentry qentry) eqn:EG; cases; try open_iter MaxIterationsQ pentry; cases; cbn; intros Hn; try lia.
   all: assert (HN : forall k, (1 <= k)%nat -> Nseq pentry nrm k = nrm k) by (intros [|k] Hk; [lia | reflexivity]).
@@ -336,6 +336,37 @@ Proof.
 Qed.
 End Q.
 
+Ltac evalcmp := repeat match goal with
+  | |- context [Rltb ?a ?b] => first [ replace (Rltb a b) with true by (symmetry; apply Rltb_true; lra)
+                                     | replace (Rltb a b) with false by (symmetry; apply Rltb_false; lra) ]
+  | |- context [Rleb ?a ?b] => first [ replace (Rleb a b) with true by (symmetry; apply Rleb_true; lra)
+                                     | replace (Rleb a b) with false by (symmetry; apply Rleb_false; lra) ]
+  end.
+
+(** The state that is RETURNED after a success is within the accuracy provided normalizeQuaternions leaves the
+    position-error norm alone (the code's design assumption) ... *)
+Lemma projQ_success_state_within_tol_partial (o : Opts (T:=R)) hasQuats pentry qentry nrm back qchg qn pAfter :
+  let r := projectQ ROps o hasQuats pentry qentry nrm back qchg qn in
+  0 <= o_acc o -> (hasQuats = false -> qentry = 0) -> (r_quatNormalized r = true -> pAfter = r_pnorm r) ->
+  r_status r = Succeeded -> true_pnorm r pAfter <= o_acc o /\ r_qnorm r <= o_acc o.
+Proof.
+  intros r Hacc Hq Hn Hs.
+  destruct (projQ_success_means_within_tol o hasQuats pentry qentry nrm back qchg qn Hacc Hq Hs) as (H1 & H2 & _).
+  split; [|exact H2]. unfold true_pnorm. fold r. destruct (r_quatNormalized r); [rewrite Hn by reflexivity|]; exact H1.
+Qed.
+(** ... and without that assumption it is not: the code reports success whatever the normalised state's error is.
+    Witness with the numbers of the implementation replay (Free body, ConstantCoordinate on a quaternion component):
+    accuracy 1e-6, entry norm 0.2, one iteration brings the norm to 0, normalisation moves it to 6e-3. *)
+Lemma projQ_success_state_within_tol_refuted :
+  exists (o : Opts (T:=R)) hq p q nrm back qc qn pAfter,
+    let r := projectQ ROps o hq p q nrm back qc qn in
+    r_status r = Succeeded /\ r_normExit r = Some 0 /\ o_acc o < true_pnorm r pAfter.
+Proof.
+  exists (mkOpts (1/1000000) (1/10) 10 0 false false true), true, (2/10), 0, (fun _ => 0), (fun _ => 0), true, 0, (6/1000).
+  intro r; subst r; unfold projectQ, true_pnorm, MaxIterationsQ, tryFor, nmax, gtb, geb, leb, is0; cbn.
+  repeat (evalcmp; unfold tryFor, nmax; cbn). repeat split; try reflexivity. lra.
+Qed.
+
 (** getNormOnExit can under-report: a success whose reported exit norm is smaller than the position-error norm of the
     state it leaves (quaternion-only branch).  Witness: accuracy 1, position norm 1/2 (fine), quaternion norm 2,
     normalisation brings the quaternion norm to 0: reported 0, actual max = 1/2. *)
@@ -356,12 +387,6 @@ Proof.
 Qed.
 
 (** non-vacuity: a run that iterates three times and succeeds, one that diverges under LocalOnly and is reverted *)
-Ltac evalcmp := repeat match goal with
-  | |- context [Rltb ?a ?b] => first [ replace (Rltb a b) with true by (symmetry; apply Rltb_true; lra)
-                                     | replace (Rltb a b) with false by (symmetry; apply Rltb_false; lra) ]
-  | |- context [Rleb ?a ?b] => first [ replace (Rleb a b) with true by (symmetry; apply Rleb_true; lra)
-                                     | replace (Rleb a b) with false by (symmetry; apply Rleb_false; lra) ]
-  end.
 Definition ex_opts (loc : bool) : Opts (T:=R) := mkOpts 1 (1/10) 1000 0 loc false true.
 Example ex_three_iterations :
   let r := projectU ROps (ex_opts false) 50 (fun k => match k with 1%nat => 10 | 2%nat => 2 | _ => 1/100 end) (fun _ => 0) in
